@@ -5,6 +5,7 @@ mod ccrypto;
 mod client;
 mod codec;
 mod conn;
+mod net;
 mod pipe;
 mod props;
 mod rng;
@@ -41,7 +42,19 @@ fn main() {
     let _ = passage_protocol::crypto::ENCODED_PUB.len();
     let args: Vec<String> = std::env::args().collect();
     let checks = props::all();
-    let code = match args.get(1).map(String::as_str) {
+    let code = std::panic::catch_unwind(std::panic::AssertUnwindSafe(|| run(&args, &checks)));
+    let code = match code {
+        Ok(c) => c,
+        Err(_) => {
+            println!("HARNESS-ERROR: the simulator itself panicked: {:?}", alloc::all_panics());
+            2
+        }
+    };
+    std::process::exit(code);
+}
+
+fn run(args: &[String], checks: &[Box<dyn runner::Erased>]) -> i32 {
+    match args.get(1).map(String::as_str) {
         Some("check") => {
             let Some(id) = args.get(2) else { usage() };
             let Some(c) = checks.iter().find(|c| c.id() == id) else {
@@ -52,7 +65,7 @@ fn main() {
         }
         Some("replay") => {
             let Some(path) = args.get(2) else { usage() };
-            runner::replay_file(&checks, path)
+            runner::replay_file(checks, path)
         }
         Some("fingerprint") => {
             let (Some(id), Some(seed), Some(count)) = (args.get(2), args.get(3), args.get(4)) else { usage() };
@@ -66,10 +79,9 @@ fn main() {
             }
             0
         }
-        Some("selftest") => selftest(&checks, tier_of(args.get(3))),
+        Some("selftest") => selftest(checks, tier_of(args.get(3))),
         _ => usage(),
-    };
-    std::process::exit(code);
+    }
 }
 
 /// Determinism: every family's batch fingerprint must be identical across separate processes and
